@@ -242,6 +242,16 @@ func (a *segment) Mutate(operation uint64, key, val []byte) error {
 }
 
 func (a *segment) mutate(operation uint64, key, val []byte) error {
+	// Reject oversize input before it is appended, so that a rejected
+	// operation neither grows (and possibly reallocates) the buffer
+	// that slices handed out by Alloc() point into, nor gets persisted.
+	if len(key) > maxKeyLength {
+		return ErrKeyTooLarge
+	}
+	if len(val) > maxValLength {
+		return ErrValueTooLarge
+	}
+
 	keyStart := len(a.buf)
 	a.buf = append(a.buf, key...)
 	keyLength := len(a.buf) - keyStart
